@@ -58,7 +58,7 @@ SilentCaller ==
 SilentTimer == l <= TraceLen /\ phase \in {"near", "due"} /\ TimerExpire /\ Silent
 
 \* the goroutine's actions other than the job function itself (which always logs start and end)
-GHidden == \/ GSelCtx \/ GSelCancel \/ GSelRun \/ GSelTimer \/ GCtxDel
+GHidden == \/ GTCancelled \/ GSelCtx \/ GSelCancel \/ GSelRun \/ GSelTimer \/ GCtxDel
            \/ GKFinalise \/ GRFinalise \/ GRReset
            \/ GTCheck \/ GTWait \/ GTDel \/ GTClaim \/ GTReset \/ GTFinalise
            \/ GPKFinalise \/ GPRReset
@@ -77,7 +77,7 @@ TRet ==    \* the call returned res
     /\ IsEvent("Ret") /\ Who \in called
     \* only success / refusal is compared: which refusal is returned is not part of C02
     /\ \/ Who \in Callers /\ cpc[Who] = "done" /\ ((cres[Who] \in {"ok", "okb"}) <=> (Line.res = "ok"))
-       \/ Who \in Cancellers /\ kpc[Who] = "done" /\ ((kres[Who] \in {"ok", "okb"}) <=> (Line.res = "ok"))
+       \/ Who \in Cancellers /\ kpc[Who] = "done" /\ ((kres[Who] \in {"ok", "okb", "won"}) <=> (Line.res = "ok"))
     /\ Line.res \in {"ok", "refused"}
     /\ UNCHANGED vars /\ Keep
 
@@ -136,7 +136,7 @@ THooks ==
     \/ GAct("GRFinalised", GRFinalise) \/ GAct("GRReset", GRReset \/ GPRReset)
     \/ GAct("GSelTimer", GSelTimer)
     \/ GAct("GTActive", active /\ GTCheck) \/ GAct("GTInactive", ~active /\ GTCheck)
-    \/ GAct("GTDeleted", GTDel) \/ GAct("GTClaimed", GTClaim)
+    \/ GAct("GTDeleted", GTDel) \/ GAct("GTClaimed", GTClaim) \/ GAct("GTCancelled", GTCancelled)
     \/ GAct("GTReset", GTReset) \/ GAct("GTFinalised", GTFinalise)
     \* observations about a caller inside RunJob / CancelJob
     \/ (IsEvent("RPreLock") /\ cpc[Who] = "p" /\ UNCHANGED vars /\ Keep)
